@@ -10,7 +10,8 @@ Exploration level; TLC generates the cases and evaluates the laws.
  3. Pairs: (A) all ordered pairs of renderings of the same value (equal by construction), (B) every edit edge
     (near miss) in two style combinations and both orders, (C) all ordered pairs of values with the same skeleton
     (same primitive events, different nesting - what a comparator that skips StartBody/EndRecord could merge),
-    (D) corrupted texts against themselves, their origin and each other.
+    (D) corrupted texts against themselves, their origin and each other, (E) every number (integers at the limits of the
+    tokenizer's kinds, signed zero, floats) in each of its five spellings against every other one, in five contexts.
  4. harness h_core/reconcmp observes compare_recon_values, recon_hash, parse_recognize::<Value> + Value::eq.
  5. MC_ReconCompare (TLC) evaluates the laws (P) over the observed table, M's verdict on the same pair and the
     row-by-row comparison of M with the code (MODEL-DRIFT only).
@@ -115,10 +116,12 @@ def build(tier, wd, rng):
         o = json.loads(raw)
         k = tuple(o["key"])
         if k not in vals or o["gen"] == 0:
-            vals[k] = {"nf": tuple(o["nf"]), "sv": tuple(tuple(x) for x in o["sv"]), "sk": tuple(o["sk"]), "gen": o["gen"]}
+            vals[k] = {"nf": tuple(o["nf"]), "sv": tuple(tuple(x) for x in o["sv"]), "sk": tuple(o["sk"]), "gen": o["gen"],
+                       "ctx": o.get("ctx", 0)}
     D = Docs()
     by_val = collections.defaultdict(list)      # key -> [doc index]
     dflt, nlmix = {}, {}
+    by_ctx = collections.defaultdict(list)      # numeric context -> [doc index] (number spellings only)
     for raw in gen.tagged["DOC"]:
         o = json.loads(raw)
         k = tuple(o["key"])
@@ -129,6 +132,8 @@ def build(tier, wd, rng):
             dflt[k] = i
         if o["nlmix"]:
             nlmix[k] = i
+        if o.get("nmv") and vals[k]["ctx"] and vals[k]["gen"] == 0 and i not in by_ctx[vals[k]["ctx"]]:
+            by_ctx[vals[k]["ctx"]].append(i)
     # the three real printers, run on the parsed default rendering of every base value; a printed text that does not
     # parse back to the same value (a printer defect, C09's business) is not a rendering of that value and is dropped
     keys = sorted(k for k in dflt if vals[k]["gen"] == 0)
@@ -205,6 +210,11 @@ def build(tier, wd, rng):
             for y in ks:
                 if x != y:
                     add(dflt[x], dflt[y], "C same skeleton")
+    # (E) every number against every number, in all spellings, in the same context
+    for c, ds in sorted(by_ctx.items()):
+        for a in ds:
+            for b in ds:
+                add(a, b, "E numbers")
     prev = None
     for i, d, kind in cor_of:
         add(i, i, "D corrupted")
@@ -372,7 +382,7 @@ def run(tier, out):
     out.add(evaluations=laws_eval, distinct_nontrivial=sum(nontriv.values()),
             rule="TLC explores ReconCompare.tla (Wide=%s): abstract values, near misses (one abstract edit), renderings (styles), corruptions; "
                  "texts = joined tokens + output of the 3 real printers; pairs = (A) all ordered pairs of renderings of one value, (B) edit edges, "
-                 "(C) values with the same skeleton, (D) corrupted texts; one evaluation = one law instance (law, ordered pair of texts) whose premise "
+                 "(C) values with the same skeleton, (D) corrupted texts, (E) all numbers x all spellings in 5 contexts; one evaluation = one law instance (law, ordered pair of texts) whose premise "
                  "holds, evaluated by TLC over the observed table; non-trivial = additionally the two texts are different strings" % (tier != "quick"),
             nontrivial_by_law=dict(nontriv), texts=len(D.text), pairs=len(pairs), pairs_by_origin=dict(origin),
             texts_by_kind=dict(collections.Counter(D.kind)), texts_valid=sum(table["valid"]), **counts,
